@@ -472,10 +472,85 @@ def _expand_raise_predicates(trees, keep):
     return removed, sorted(done)
 
 
+def _hoist_nested_helper_calls(trees, keep):
+    """`return self._values[self._bounds(item)]`  ->  `t = self._bounds(item); return self._values[t]`: a call of a private
+    multi-statement helper nested in a simple statement is hoisted into a temporary in front of it, so that the statement-
+    level inliner can take it.  Only when everything the statement evaluates before the call is free of effects (names,
+    attribute loads, constants), and the statement contains a single such call outside lambdas / comprehensions /
+    conditional sub-expressions."""
+    names = {}
+    for mod, tree in trees.items():
+        for st in tree.body:
+            if isinstance(st, ast.FunctionDef):
+                names.setdefault(st.name, []).append(st)
+            elif isinstance(st, ast.ClassDef):
+                for m in st.body:
+                    if isinstance(m, ast.FunctionDef):
+                        names.setdefault(m.name, []).append(m)
+    cands = {nm for nm, ds in names.items() if len(ds) == 1 and _is_private(nm) and nm not in keep and _eligible_def(ds[0])
+             and _expr_body(ds[0]) is None and _has_return(ds[0].body)}
+    if not cands:
+        return 0
+    count = 0
+
+    def first_effectful(e, target):
+        """Walk in evaluation order; True when `target` is reached before any other call/subscript-load/yield."""
+        order = []
+
+        def rec(x):
+            if isinstance(x, (ast.Lambda, ast.GeneratorExp, ast.ListComp, ast.SetComp, ast.DictComp, ast.IfExp, ast.BoolOp)):
+                order.append(('opaque', x))
+                return
+            for ch in ast.iter_child_nodes(x):
+                rec(ch)
+            if isinstance(x, (ast.Call, ast.Yield, ast.YieldFrom, ast.Await)):
+                order.append(('eff', x))
+        rec(e)
+        for kind, x in order:
+            if x is target:
+                return True
+            if kind == 'opaque' and any(y is target for y in ast.walk(x)):
+                return False
+            if kind in ('eff', 'opaque'):
+                return False
+        return False
+    for tree in trees.values():
+        for fn in [n for n in ast.walk(tree) if isinstance(n, ast.FunctionDef)]:
+            for parent in ast.walk(fn):
+                for fld in ('body', 'orelse', 'finalbody'):
+                    body = getattr(parent, fld, None)
+                    if not (isinstance(body, list) and body and isinstance(body[0], ast.stmt)):
+                        continue
+                    out = []
+                    for st in body:
+                        if isinstance(st, (ast.Return, ast.Expr, ast.Assign, ast.AugAssign, ast.AnnAssign)) and \
+                                getattr(st, 'value', None) is not None and _stmt_call(st)[0] is None or \
+                                (isinstance(st, (ast.Return, ast.Expr, ast.Assign)) and getattr(st, 'value', None) is not None and
+                                 _stmt_call(st)[0] is not None and _call_name(_stmt_call(st)[0]) not in cands):
+                            calls = [c for c in ast.walk(st.value) if isinstance(c, ast.Call) and _call_name(c) in cands]
+                            if len(calls) == 1 and calls[0] is not st.value and first_effectful(st.value, calls[0]):
+                                count += 1
+                                tmp = f'hoist{count}_{_call_name(calls[0]).lstrip("_")}'
+                                c = calls[0]
+
+                                class R(ast.NodeTransformer):
+                                    def visit_Call(self, n):
+                                        if n is c:
+                                            return ast.copy_location(ast.Name(id=tmp, ctx=ast.Load()), n)
+                                        return self.generic_visit(n)
+                                st.value = R().visit(st.value)
+                                out.append(ast.copy_location(ast.Assign(targets=[ast.Name(id=tmp, ctx=ast.Store())], value=c), st))
+                        out.append(st)
+                    setattr(parent, fld, out)
+        ast.fix_missing_locations(tree)
+    return count
+
+
 def expand(trees, keep=frozenset()):
     """trees: {module name: ast.Module}, modified in place.  Returns the sorted list of
     helpers that were inlined (and whose definitions were removed)."""
     inlined = list(_expand_expr_helpers(trees, keep))
+    _hoist_nested_helper_calls(trees, keep)
     removed, used = _expand_raise_predicates(trees, keep)
     inlined.extend(x for x in used if x not in inlined)
     for _ in range(MAXROUNDS):
